@@ -19,6 +19,12 @@ fuzz_target!(|data: &[u8]| {
     if data.len() < 9 || data.len() > 4096 {
         return;
     }
+    // only boxes that claim no more bytes than are given (a standalone decoder has no parent that
+    // would bound the declared size; unbounded sizes are C08's subject, through the reader)
+    let declared = u32::from_be_bytes([data[1], data[2], data[3], data[4]]) as usize;
+    if declared == 1 || declared > data.len() - 1 {
+        return;
+    }
     WITNESS.with(|w| {
         let mut w = w.borrow_mut();
         if w.is_empty() {
